@@ -976,7 +976,18 @@ impl ScanSim {
                         }
                     }
                     if want < best {
-                        let near = !exact && (best as f64 - want as f64) <= table.tol[pos];
+                        let mut near = !exact && (best as f64 - want as f64) <= table.tol[pos];
+                        if near && score.to_bits() == want.to_bits() {
+                            // same reasoning as for ties with the threshold: max() reported score_position's
+                            // value for its answer; if score_position also gives exactly the larger reference
+                            // value at another unconsumed position, the answer is not the maximum of the
+                            // function it reports, whatever the summation order
+                            if let Some(&bi) = u.iter().find(|&&i| table.f32s[i] == best) {
+                                if tie_confirmed(bi, t, seen.len() + 1) {
+                                    near = false;
+                                }
+                            }
+                        }
                         if near {
                             o.tolerated += 1;
                         } else {
@@ -1229,7 +1240,7 @@ impl Sim for ScanSim {
     fn assumptions(_prop: &str) -> Vec<String> {
         vec![
             "In contract: non-wildcard matrix entries finite, wildcard column -inf or any finite value (below, inside or above the range of the row), threshold not NaN and not changed once iteration has started (the property is silent about that), look-ahead rows >= M-1 (configure was called).".into(),
-            "Reference score = f32 left-to-right sum over the matrix values the library holds (bit-for-bit what score_position evaluates); for non-exact matrices a position within 2*M*2^-24*sum|term| of the threshold or of the maximum is don't-care (counted as tolerated).".into(),
+            "Reference score = f32 left-to-right sum over the matrix values the library holds (bit-for-bit what score_position evaluates); for non-exact matrices a position within 2*M*2^-24*sum|term| of the threshold or of the maximum is don't-care (counted as tolerated), unless the tie is confirmed: score_position of the tree under test gives exactly the reference value there and every score the scanner returned in that run was bit-for-bit the reference value (at least one), in which case the position is expected strictly.".into(),
             "The avx2 host profile needs a machine with AVX2 (present here); generic and sse2 arms are reached through the verif-hooks override.".into(),
         ]
     }
